@@ -52,6 +52,15 @@ CHECKS["C01"] = dict(
          "with the model's operators; bounds checked as exact rational inequalities.",
     technique="Lean 4 proof of the a-priori error bounds from the stopping rule (monotone+shift operator theory over the executable backup) + certificate-checked runs of the real solvers",
     ref="§8 C01", note="Existence of V* (Banach) is not formalised: theorems quantify over every fixed point; per instance the driver verifies the fixed-point certificates exactly.")
+CHECKS["C05"] = dict(
+    text="Theorems: for every layout the evaluation sweep applies each state's own policy action (gathered at state_to_index with JAX clamping), padding "
+         "unobservable; _evaluate_policy returns the first pre-update iterate whose next sweep meets the test, else the budget-th iterate; a "
+         "max_diff-converged evaluation is within eps/gamma of the exact policy value; the loop stops before its limit iff no state's action changed; "
+         "the policy held after every iteration is greedy for the held values; first policy = supplied initial policy, else argmax of immediate "
+         "expected reward; reset semantics. Tie: injected random policies/values (2-dim actions) on the real evaluation sweep, _evaluate_policy, "
+         "PI steps and solve sequences, bit-exact; converged evaluations checked against driver-verified exact policy values.",
+    technique="Lean 4 theorems over the executable evaluation/improvement model + differential injection tests on the real PolicyIteration",
+    ref="§8 C05")
 PENDING = {}
 
 
